@@ -7,7 +7,7 @@ def hexStr (s : String) : String := hex (s.toUTF8.toList)
 
 def parseAddr (a : String) : Option Addr × String :=
   match a.splitOn "@" with
-  | [n, h] => (((unhex h).map fun bs => bs.map (·.toNat)), n)
+  | n :: h :: _ => (((unhex h).map fun bs => bs.map (·.toNat)), n)   -- a third field is the spelling the proxy was given
   | _ => (none, a)
 
 def renderVal : Val → String
